@@ -41,6 +41,13 @@ def _lexa(deadline, rng, tier):
     return witness_lexa.search(deadline, rng)
 
 
+def _lexa_crlf(deadline, rng, tier):
+    # sub-case with its own obligation: the same token sequences with CRLF line ends
+    from . import witness_lexa
+    w = witness_lexa.search(min(deadline, time.time() + 4), rng, newline='\r\n')
+    return [('CRLF line ends', w)] if w else []
+
+
 def _layout(deadline, rng, tier):
     from . import witness_layout
     return witness_layout.search(deadline, rng)
@@ -100,8 +107,11 @@ SUITES = {
              '18 module sets of 2..4 files (public/private function, constant, structure; direct, missing, transitive, diamond imports; relative paths; look-alike file names) x file orders')],
     'C13': [('determinism', _determinism, 'HashMap/HashSet iteration order in scoper/typer/expander',
              'invalid and valid samples of the repository plus 4 constructed multi-error modules, each compiled in 3 (thorough: 5) fresh processes'),
-            ('alpha_lexer_spans', _lexa, 'none (spans are also proved: U-LEXA); kept as replay source', 'as C09.alpha_lexer_tokens')],
-    'C14': [('alpha_lexer_tokens', _lexa, 'agreement of the two lexers (each is verified against its own spec)', 'as C09.alpha_lexer_tokens')],
+            ('alpha_lexer_spans', _lexa, 'none (spans are also proved: U-LEXA); kept as replay source', 'as C09.alpha_lexer_tokens'),
+            ('alpha_lexer_spans_crlf', _lexa_crlf, 'str::lines is modelled by three facts only: the proved line offsets are the running sum of chars+1, not the true index',
+             'as C09.alpha_lexer_tokens with every line end written CRLF')],
+    'C14': [('alpha_lexer_tokens', _lexa, 'agreement of the two lexers (each is verified against its own spec)', 'as C09.alpha_lexer_tokens'),
+            ('alpha_lexer_tokens_crlf', _lexa_crlf, 'str::lines is modelled by three facts only', 'as C09.alpha_lexer_tokens with every line end written CRLF')],
     'C15': [('delta_front_end_crash_search', _delta_crash, 'XML dumps, recursion depth',
              'fixed seeds, boundary runs of every token (127..1000 repeats), inputs at the token limit, repository samples, token soup of length <= 4 (thorough: <= 6)'),
             ('deep_nesting', _depth, 'recursion depth of the parser (unbounded stack is an assumption of the proof); the XML printer',
